@@ -460,7 +460,7 @@ def write_num_tie(ctx, binp, ncases):
     return len(nitems), bad
 
 
-ESC_ATOMS = ['"', "'", '&', '<', '>', 'a', 'b', ';', '#', 'é', ']', ']]>', 'amp;', 'lt;', 'quot;', 'apos;', '&amp;', '&lt;', '&#60;', '-', '_', 'x']
+ESC_ATOMS = ['"', "'", '&', '<', '>', 'a', 'b', ';', '#', 'é', ']', ']]>', ']]&gt;', '>>', 'gt;', '&gt;', 'amp;', 'lt;', 'quot;', 'apos;', '&amp;', '&lt;', '&#60;', '-', '_', 'x']
 
 ESC_SPECIAL = '"' + "'&<"
 
@@ -473,6 +473,7 @@ def gen_escape_cases(rng, n):
     """(id, [span texts], single_quote): adversarial strings for the `escape` correspondence"""
     fixed = [('a&b', ['x & y < z > w " q \' ]]> e'], 0), ('q"u\'o"t\'e', ['""\'\'', '&amp;&lt;'], 1), ('q"u\'o"t\'e', ['<<<&&&', 'a&#60;b'], 0),
              ('a&amp;b', ['&amp;amp;', '&quot;'], 1), ('<', ['<'], 0), ('"', ['"'], 0), ("'", ["'"], 1), ('&', ['&'], 1),
+             ('a]]>b', ['a ]]> b', ']]>'], 0), ('x>y', ['>', ']]&gt;'], 1), (']]&gt;', [']]>]]>', 'a > b >> c'], 0), ('gt', ['&gt;]]>', ']] >'], 1),
              ('é"é', ['é<é&é'], 0), ('""""""', ['<<<<<<'], 0), ("'" * 6, ['&&&&&&'], 1)]
     out = list(fixed)
     while len(out) < n:
@@ -548,6 +549,54 @@ def escape_tie(ctx, binp, ncases):
                   for b in bl[0]]
     cex = [(imap[b][1], imap[b][2], "%s %r" % (imap[b][0], imap[b][3].decode('utf-8', 'replace'))) for b in bl[1]]
     return len(items), bad, cex
+
+
+CDATA_WITNESS = os.path.join(WITNESS, 'C07-text-cdata-end.svg')
+
+
+def chunk_texts(d):
+    out = []
+
+    def go(g):
+        for n in g['children']:
+            if n['t'] == 'text':
+                out.extend(c['text'] for c in n['chunks'])
+            elif n['t'] == 'g':
+                go(n)
+    go(d['root'])
+    return out
+
+
+def cdata_regression(ctx, binp):
+    """fixed 94b8b4d: a span text with `]]>` (witness + variants) written with preserve_text must be well-formed, must be parsed again
+    and the re-parsed tree must hold the same text"""
+    docs = ['@' + CDATA_WITNESS] if os.path.exists(CDATA_WITNESS) else []
+    docs += ['<svg %s width="100" height="100"><text x="5" y="50" font-size="20">%s</text></svg>' % (NS, t)
+             for t in ('a ]]&gt; b', ']]&gt;', 'x &gt; y ]]&gt;]]&gt; <tspan fill="red">]]&gt;&amp;&lt;</tspan>', ']] &gt; ]&gt;')]
+    for sq in (0, 1):
+        w = wopts_str(dict(pt=1, sq=sq, indent='none')) + ';full=1'
+        outs = ctx.rvh_batch(binp, 'c07-write', ["-\t%s\t%s" % (w, d) for d in docs])
+        again = []
+        for d, o in zip(docs, outs):
+            r = jload(o)
+            ctx.note_case("cdata/%d/%s" % (sq, d[-40:]), nontrivial=True)
+            rep = dict(doc=d, wopts=w, op='c07-write', part='cdata-end regression')
+            if 'text' not in r or r.get('xml') is not None or r.get('reparse') is not None:
+                ctx.violation("regression of 94b8b4d: a text containing `]]>` written with preserve_text is not well-formed / not re-parsable: %s"
+                              % str({k: r.get(k) for k in ('error', 'panic', 'crash', 'xml', 'reparse')})[:300], rep)
+                again.append(None)
+                continue
+            if ']]>' in r['text']:
+                ctx.violation("regression of 94b8b4d: the written text contains a raw `]]>`", rep)
+            again.append((d, r))
+        todo = [x for x in again if x]
+        outs2 = ctx.rvh_batch(binp, 'dump', ["-\thex:%s" % r['text'].encode('utf-8').hex() for _, r in todo])
+        for (d, r), o2 in zip(todo, outs2):
+            r2 = jload(o2)
+            a, b = chunk_texts(r['dump']), (chunk_texts(r2) if 'root' in r2 else None)
+            if a != b:
+                ctx.violation("regression of 94b8b4d: the text changes over a write / parse round trip with preserve_text: %r -> %r" % (a, b),
+                              dict(doc=d, wopts=w, op='c07-write', part='cdata-end regression'))
 
 
 def src_of(doc):
@@ -798,6 +847,7 @@ def run(ctx):
                           dict(doc=ndocs[ci], wopts=wopts_str(dict(cp=ncases[ci][0])), op='c07-write', value=v, written=tok))
 
     # ------------------------------------------------------------------ K: escape (xmlwriter layer)
+    cdata_regression(ctx, binp)
     er = escape_tie(ctx, binp, 60 if quick else 600)
     esc_cex = []
     if er is None:
